@@ -451,3 +451,96 @@ def build_side(prog, chk, rule="build-side"):
                 chk.ob(rule, "add_message_integrity|a refused call leaves the builder unchanged", False, body.loc(), detail="pushes %r" % ([e[1] for e in pushes],))
     for a_ in ("Sha1", "Sha256"):
         chk.floor(rule + "-ok-states-" + a_, n_ok[a_], 1)
+
+
+# ------------------------------------------------------------------------------------------------ fingerprint (C09)
+
+FP = "stun_types::attribute::fingerprint::Fingerprint"
+
+
+def fingerprint_compute(prog, chk, rule="crc-algorithm"):
+    """Fingerprint::compute(data) = big-endian bytes of the CRC of exactly `data`"""
+    key = FP + "::compute"
+    body = prog.bodies.get(key)
+    if body is None:
+        chk.fail(rule, "Fingerprint::compute not found")
+        return
+    r = Run(prog, key, track_content=True)
+    if r.error or not r.results:
+        chk.fail(rule, "Fingerprint::compute|analysis", detail=r.error or "no return state")
+        return
+    for st, ret in r.results:
+        crcs = [e for e in r.trace(st) if e[0] == "crc"]
+        d = arg_seq(r, st, body, "data")
+        problems = []
+        if len(crcs) != 1:
+            problems.append("%d CRC computations" % len(crcs))
+        else:
+            if not whole(st, content_segments(st, crcs[0][1]), "in:data", d.len if isinstance(d, Seq) else None):
+                problems.append("the CRC input is %s, not the data given" % show_segments(content_segments(st, crcs[0][1])))
+            segs = content_segments(st, ret)
+            if not (segs and len(segs) == 1 and segs[0][0] == "win" and segs[0][1] == "be32:%s" % crcs[0][2] and st.sys.entails_eq(segs[0][2]) and st.sys.entails_eq(segs[0][3] - 4)):
+                problems.append("the value returned is %s, not the four big-endian bytes of that CRC" % show_segments(segs))
+            cst = r.it.contents.get(crcs[0][2])
+            cref = cst[1] if cst else None
+            if not (isinstance(cref, Struct) or isinstance(cref, V)):
+                problems.append("the CRC object is unknown")
+        chk.ob(rule, "compute(data) = (CRC of data).to_be_bytes()", not problems, body.loc(), detail="; ".join(problems), how="E2 return state: CRC event and content of the value returned")
+
+
+def fingerprint_build(prog, chk, rule="build-side"):
+    key = MBNS + "add_fingerprint"
+    body = prog.bodies.get(key)
+    if body is None:
+        chk.fail(rule, "add_fingerprint not found")
+        return
+    from absint.interp import event
+
+    def pre_new(it, st, fr, args):
+        event(st, "fingerprint-new", args[0] if args else TOP)
+    r = Run(prog, key, track_content=True, max_parts=2000, local_models={MBNS + "build": model_build_self}, pre_hooks={FP + "::new": pre_new})
+    if r.error or not r.results:
+        chk.fail(rule, "add_fingerprint|analysis", detail=r.error or "no return state")
+        return
+    names = [f["name"] for f in prog.adts[MBADT]["variants"][0]["fields"]]
+    i_attrs, i_types = names.index("attributes"), names.index("attribute_types")
+    n_ok = 0
+    for st, ret in r.results:
+        tr = r.trace(st)
+        crcs = [e for e in tr if e[0] == "crc"]
+        news = [e for e in tr if e[0] == "fingerprint-new"]
+        pushes = [e for e in tr if e[0] == "push"]
+        res = variant_of(prog, ret)
+        problems = []
+        if res == "Ok":
+            n_ok += 1
+            if len(crcs) != 1:
+                problems.append("%d CRC computations on the path" % len(crcs))
+            else:
+                pr = patched_build(st, r, content_segments(st, crcs[0][1]), crcs[0][1].len if isinstance(crcs[0][1], Seq) else None, 8)
+                if pr:
+                    problems.append("CRC input: " + pr)
+                if len(news) != 1:
+                    problems.append("%d Fingerprint values are built" % len(news))
+                else:
+                    segs = content_segments(st, news[0][1])
+                    if not (segs and len(segs) == 1 and segs[0][0] == "win" and segs[0][1] == "be32:%s" % crcs[0][2] and st.sys.entails_eq(segs[0][2]) and st.sys.entails_eq(segs[0][3] - 4)):
+                        problems.append("the Fingerprint is built from %s, not from the four big-endian bytes of the CRC just computed" % show_segments(segs))
+            if [e[1] for e in pushes] != ["a1*self.%d" % i_attrs, "a1*self.%d" % i_types]:
+                problems.append("the builder is not extended by exactly one attribute and its type (pushes to %r)" % ([e[1] for e in pushes],))
+            else:
+                at, tyv = pushes[0][2], pushes[1][2]
+                raw = at.v[next(iter(at.v))].get(0) if isinstance(at, Enum) and len(at.v) == 1 else None
+                hdr = raw.get(0) if isinstance(raw, Struct) else None
+                t_ = hdr.get(0).get(0) if isinstance(hdr, Struct) and isinstance(hdr.get(0), Struct) else None
+                l_ = hdr.get(1) if isinstance(hdr, Struct) else None
+                if not (isinstance(t_, Num) and st.sys.const_value(t_.e) == 0x8028 and isinstance(l_, Num) and st.sys.const_value(l_.e) == 4):
+                    problems.append("the attribute added is not FINGERPRINT with a 4 byte value: %r" % (at,))
+                t2 = tyv.get(0) if isinstance(tyv, Struct) else None
+                if not (isinstance(t2, Num) and st.sys.const_value(t2.e) == 0x8028):
+                    problems.append("the type recorded for it is %r" % (tyv,))
+            chk.ob(rule, "add_fingerprint: CRC over build() with the length field increased by exactly 8; the attribute added is that CRC", not problems, body.loc(),
+                   detail="; ".join(sorted(set(problems))), how="E2 return state: CRC event (input pieces), the Fingerprint built, the values pushed")
+        elif pushes:
+            chk.ob(rule, "add_fingerprint|a refused call leaves the builder unchanged", False, body.loc(), detail="pushes %r" % ([e[1] for e in pushes],))
+    chk.floor(rule + "-fingerprint-ok-states", n_ok, 1)
